@@ -406,6 +406,8 @@ def start_items(tier):
         items.append(("NARY", t, False, tier == "thorough" and M.size(t) <= 8))
     for t in F.param_terms(tier):
         items.append(("PARAM", t, False, M.size(t) <= 4))
+    for t in F.near_terms(tier):
+        items.append(("NEAR", t, False, True))
     for lab, t in F.chain_terms(tier):
         n = M.size(t)
         items.append(("CHAIN:" + lab, t, False, n <= (21 if tier == "thorough" else 9)))
